@@ -48,6 +48,8 @@ def build(case):
             ops += bytes([6]) + struct.pack('<H', op['i'] % nfvs); n += 1; nfvs += 1
         elif k == 'fv_set' and nfvs:
             ops += bytes([7]) + struct.pack('<HHH', op['i'] % nfvs, op['f'], op['v']); n += 1; tags.append(('set', op))
+        elif k == 'label_id':
+            ops += bytes([17]) + struct.pack('<IhHB', op['id'], op['s'], op['lang'], op['enc']); n += 1; tags.append(('label_id', op))
         elif k == 'label':
             ops += bytes([10]) + struct.pack('<HhHB', op['f'], op['s'], op['lang'], op['enc']); n += 1; tags.append(('label', op))
         elif k == 'sup':
@@ -170,6 +172,8 @@ def worker(ctx):
             elif c == 11: ops.append(dict(k='fv', tag=draw(st.sampled_from([0, 0x656E0000, 0x20202020, 0x61626320, 0x12345678]))))
             elif c == 12: ops.append(dict(k='fv_clone', i=draw(st.integers(0, 5))))
             elif c == 13: ops.append(dict(k='fv_set', i=draw(st.integers(0, 5)), f=draw(st.integers(0, 12)), v=draw(st.sampled_from([0, 1, 2, 3, 255, 65535]))))
+            elif c == 14 and base.get('kind') == 'spec' and base['spec'].get('feats') and draw(st.booleans()):
+                ops.append(dict(k='label_id', id=draw(st.sampled_from([f['id'] for f in base['spec']['feats']])), s=draw(st.integers(-1, 3)), lang=0x409, enc=draw(st.sampled_from([1, 2, 4]))))
             elif c == 14: ops.append(dict(k='label', f=draw(st.integers(0, 12)), s=draw(st.integers(-1, 3)), lang=draw(st.sampled_from([0x409, 0x407])), enc=draw(st.sampled_from([1, 2, 4]))))
             elif c == 15: ops.append(dict(k='sup', cp=draw(st.sampled_from(pool + [0x20, 0xFFFF, 0x10000]))))
             elif c == 16: ops.append(dict(k='report'))
